@@ -7,6 +7,8 @@ NOTE_COMMON=("Bounded: ranks/sizes/argument ranges as listed in evidence.bounds;
   "(rounding/overflow outside the claim); math.* and gonum samplers are contract stubs; trusted: go/ssa lowering, the executor's "
   "semantics for the SSA instructions met (validated by replaying sampled path models natively), z3 4.8.12, the reference models in /verif/harness.")
 checks={
+ "C01":("Bounded symbolic model checking of the back-propagation walk: the solver enumerates every straight-line program shape (operands, op codes, root, tracked flags) within the bound; the gradient of every tensor in the graph is proved equal, as a polynomial identity in the leaf values, to the adjoint of an independent reverse-mode tape; rule-application counts are monitored.","3 C01"),
+ "C07":("Explicit Broadcast and implicit expansion in Add/Sub/Mul/Div/Dot/MatMul executed symbolically for every solver-chosen shape pair; the gradient delivered to the original operand is compared with the sum of the upstream over its copies.  The unchanged tree violates this (mean instead of sum): recorded as known finding bcast_backward_mean and attributed per path through a deviant oracle.","3 C07, 5"),
  "C02":("Each of the 33 differentiable ops is applied once with solver-chosen shape/arguments/tracked subset, an arbitrary symbolic upstream weighting is back-propagated through it, and every gradient element is proved finite and equal to an independently written VJP for all real operand values in the differentiability domain.","3 C02"),
  "C03":("Every element-wise op / comparison / implicit-broadcast arithmetic path within the bounds is executed symbolically; each output element is proved equal to the scalar function of the NumPy-mapped operand elements for all real inputs.","3 C03"),
  "C04":("MatMul/Dot/Transpose executed symbolically for every solver-chosen shape pair in the bounds; each output element proved equal to the explicit sum of products; A.I=A and (AB)^T=B^T A^T proved as polynomial identities.","3 C04"),
